@@ -279,8 +279,9 @@ func (r *Reader) traverseNode(n *html.Node, ctx *parseContext) {
 				text := getDirectTextContent(n)
 				if text != "" {
 					ctx.listItems = append(ctx.listItems, listItem{
-						Text:  text,
-						Level: ctx.listLevel,
+						Text:    text,
+						Level:   ctx.listLevel,
+						Ordered: ctx.listOrdered,
 					})
 				}
 				// Check for nested lists
@@ -485,8 +486,9 @@ func (r *Reader) traverseNodeFiltered(n *html.Node, ctx *parseContext, elements 
 				text := getDirectTextContent(n)
 				if text != "" {
 					ctx.listItems = append(ctx.listItems, listItem{
-						Text:  text,
-						Level: ctx.listLevel,
+						Text:    text,
+						Level:   ctx.listLevel,
+						Ordered: ctx.listOrdered,
 					})
 				}
 				// Check for nested lists
@@ -902,7 +904,7 @@ func (r *Reader) markdown(opts ExtractOptions, mdOpts *rag.MarkdownOptions) (str
 				for j := 0; j < item.Level; j++ {
 					result.WriteString("  ")
 				}
-				if elem.Ordered {
+				if item.Ordered {
 					result.WriteString("1. ")
 				} else {
 					result.WriteString("- ")
